@@ -24,7 +24,7 @@ class Fn:
     """side-car contract of one function of /repo"""
 
     def __init__(self, path, ret=None, requires=(), ensures=(), loops=None, panics=None, valid='true',
-                 closures=None, hints=(), attrs=(), rewrites=(), level='L0', r3_skip=(), inherent=False, outline=False, as_impl=None,
+                 closures=None, hints=(), attrs=(), rewrites=(), level='L0', r3_skip=(), inherent=False, outline=False, as_impl=None, panic_inv=None,
                  shape=None, pre_body='', decreases=None, name_as=None, generics=None, no_unwind=None,
                  sig_sub=(), mut_params=(), float_casts=(), companion=None, rej_clause=True, impl_items=None, trait_requires=False):
         self.impl_items = impl_items
@@ -42,6 +42,7 @@ class Fn:
         self.closures = closures or {}
         self.hints = list(hints)            # (anchor_substring, 'before'|'after'|'body_start'|'body_end', text)
         self.attrs = list(attrs)
+        self.panic_inv = panic_inv   # object invariant that must hold at every panic site of a `&mut self` method
         self.as_impl = as_impl   # R34: a trait's default method monomorphised for one implementor: emitted inside this impl header
         self.outline = outline   # R30: body of a trait-impl method emitted as a free function, the method calls it
         self.rewrites = list(rewrites)      # (old, new, why): function-specific, logged as rule RX
@@ -398,7 +399,7 @@ class Gen:
                 return kind[len('REJECT:'):].strip()
             raise AnchorError('%s: bad panic kind %r' % (p, kind))
         text = text.replace('vpanic_raw()', '::core::panicking::panic("assert_eq")')
-        text, npanics = rules.r2_panics(text, p, site_expr, log)
+        text, npanics = rules.r2_panics(text, p, site_expr, log, inv=fn.panic_inv)
         if len(fn.panics) != npanics:
             raise AnchorError('%s: %d panic sites in the code, side-car classifies %d' % (p, npanics, len(fn.panics)))
         text = rules.r7_vec(text, p, log)
